@@ -202,7 +202,7 @@ class InfraError(Exception):
     pass
 
 
-def run_driver(lines, timeout=900):
+def run_driver(lines, timeout=2400):
     """pipe protocol lines to the Lean model driver, return the output lines"""
     if not lines:
         return []
